@@ -277,11 +277,11 @@ theorem natText_head (n : Nat) (c : UInt8) (cs : Bytes) (h : natText n = c :: cs
   simp only [parseNatText, parseDigits, hd] at hp
   split at hp <;> exact absurd hp (by simp)
 
-theorem parseIntText_intText (i : Int) : parseIntText (intText i) = some i := by
+theorem parseIntTextCanon_intText (i : Int) : parseIntTextCanon (intText i) = some i := by
   unfold intText
   by_cases hi : i < 0
   · simp only [hi, if_true]
-    unfold parseIntText
+    unfold parseIntTextCanon
     have : (45 : UInt8).toNat = 45 := rfl
     simp only [this, if_true, parseNatText_natText]
     congr 1
@@ -291,12 +291,15 @@ theorem parseIntText_intText (i : Int) : parseIntText (intText i) = some i := by
     | nil => exact absurd hr (natText_ne_nil _)
     | cons c cs =>
       have h45 := natText_head _ c cs hr
-      unfold parseIntText
+      unfold parseIntTextCanon
       simp only [h45, if_false]
       rw [← hr, parseNatText_natText]
       simp only
       congr 1
       omega
+
+theorem parseIntText_intText (i : Int) : parseIntText (intText i) = some i := by
+  unfold parseIntText; rw [parseIntTextCanon_intText]
 
 theorem intText_ne_nil (i : Int) : intText i ≠ [] := by
   unfold intText
